@@ -112,9 +112,7 @@ def tlsClasses : List DrvClass := [
     (composeOpaque (vp Gen.vec_TlsRenegotiatedConnection)) hexOrDash,
   mkClass "TlsCertificate" (parseBytes .network 3) (composeBytes .network 3)
     (fun c => s!"TlsCertificate({hexOrDash c})"),
-  mkClass "TlsCertificates" (parseVecItems certificatesParam (parseBytes .network 3)
-      (fun c => (composeBytes .network 3 c).map (·.length)))
-    (composeVecItems certificatesParam (composeBytes .network 3)) (fun xs => cList (xs.map hexOrDash))
+  mkClass "TlsCertificates" certificatesCodec.parse certificatesCodec.compose (fun xs => cList (xs.map hexOrDash))
 ]
 
 end Cp.Tls
